@@ -145,12 +145,19 @@ def monitor(ctx, c, cb, dz, line, zline, num=int, scale=1):
             ctx.count('vertices_at_input_with_input_z')
             continue
         if cb == 0:
-            if at_input or z != 0:
-                ctx.violation('z.default-z' if not at_input else 'z.unaccounted-vertex',
-                              'no callback: solution vertex (%s, %s) carries z=%d (%s)' % (v[0], v[1], z, 'input vertex with labels %s' % sorted(loc[v]) if at_input else 'new vertex, default Z is 0'),
+            if at_input:
+                ctx.violation('z.unaccounted-vertex', 'no callback: solution vertex (%s, %s) carries z=%d, the input labels there are %s' % (v[0], v[1], z, sorted(loc[v])),
                               replay=dict(rep, vertex=[v[0], v[1], z]))
-            else:
+            elif z == dz:
                 ctx.count('new_vertices_default_z')
+            elif z == 0:
+                # SetZ returns before `ip.z = DefaultZ` when no callback is installed: the member DefaultZ is ignored
+                ctx.violation('z.default-z.DefaultZ-ignored-without-callback',
+                              'no callback, DefaultZ=%d: new solution vertex (%s, %s) carries z=0 instead of DefaultZ' % (dz, v[0], v[1]),
+                              replay=dict(rep, vertex=[v[0], v[1], z], dz=dz))
+            else:
+                ctx.violation('z.default-z', 'no callback, DefaultZ=%d: new solution vertex (%s, %s) carries z=%d' % (dz, v[0], v[1], z),
+                              replay=dict(rep, vertex=[v[0], v[1], z], dz=dz))
             continue
         cands = by_pt.get(v, [])
         if cb in (1, 2) and any(cl['zout'] == z for cl in cands):
@@ -220,7 +227,7 @@ def run_bool(ctx, exes, cases, asan_exe=None):
         for ct in CT:
             fr = rng.below(4)
             for cb in (0, 1, 2, 3):
-                dz = 0 if cb == 0 or rng.chance(1, 2) else rng.choice([9, -3, 1 << 50])
+                dz = 0 if rng.chance(1, 2) else rng.choice([9, -3, 1 << 50])
                 lines.append('BOOL %d %d %d %d %d %d %d %s %s %s' % (ct, fr, rng.below(2), rng.below(2), cb, dz, rng.below(1 << 30), fmtz(c['S']), fmtz(c['O']), fmtz(c['C'])))
                 meta.append((ci, cb, dz))
     zo = both(ctx, exes, lines, 'bool64')
